@@ -30,7 +30,8 @@ impl C05 {
     }
 }
 
-const OFFERED: [u32; 2] = [3, 1];
+/// offered masks of the [cc] block; with 0 (standard RDP security only) no authentication provider is passed
+const OFFERED: [u32; 3] = [3, 1, 0];
 const DIRECT: [&str; 9] = ["gcc-response", "licence", "per-length", "per-integer", "per-integer16", "per-oid", "per-numeric", "per-octets", "per-small"];
 
 fn server_cfg(k: usize) -> ServerParams {
@@ -46,7 +47,7 @@ fn run_cc(offered: u32, devs: Vec<Deviation>) -> (String, Rc<RefCell<RawPeer>>) 
     let link = MemLink::with_peer(peer.clone());
     let t = tpkt::Client::new(Link::new(Stream::Raw(link)));
     let mut ntlm = Ntlm::new("d".into(), "u".into(), "p".into());
-    let r = x224::Client::connect(t, offered, false, Some(&mut ntlm), false, false);
+    let r = x224::Client::connect(t, offered, false, if offered == 0 { None } else { Some(&mut ntlm) }, false, false);
     (match r {
         Ok(_) => "ok".to_string(),
         Err(e) => format!("err:{}", err_class(&format!("{:?}", e))),
@@ -133,6 +134,20 @@ pub fn structured() -> Vec<(String, Deviation)> {
                 w.u16le(1004 + i as u16);
             }
             variants.push((format!("SC_NET announcing {} channels, {} present", count, present), [core(0x00080004, Some(1), Some(1)), sec.clone(), raw_block(0x0C03, &w.0)].concat()));
+        }
+        // SC_SECURITY (TS_UD_SC_SEC1): method, level, serverRandomLen, serverCertLen and what follows, all combinations
+        // of small and huge announced lengths, with and without the announced bytes
+        for method in [0u32, 1, 2, 8, 0x10, 0xFFFF_FFFF] {
+            for (rl, cl) in [(0u32, 0u32), (32, 0), (32, 184), (0xFFFF, 0xFFFF), (0x1000_0000, 0), (0, 0x2000_0000), (0x7FFF_FFFF, 0x7FFF_FFFF), (0xFFFF_FFFF, 0xFFFF_FFFF)] {
+                for present in [0usize, 32, 216] {
+                    let mut w = W::new();
+                    w.u32le(method).u32le(if method == 0 { 0 } else { 2 }).u32le(rl).u32le(cl).bytes(&vec![0x5A; present]);
+                    variants.push((format!("SC_SECURITY method {:#x} serverRandomLen {:#x} serverCertLen {:#x} followed by {} bytes", method, rl, cl, present), [core(0x00080004, Some(1), Some(1)), raw_block(0x0C02, &w.0), net(vec![])].concat()));
+                }
+            }
+        }
+        for blen in [0usize, 4, 8, 12, 16] {
+            variants.push((format!("SC_SECURITY body of {} bytes", blen), [core(0x00080004, Some(1), Some(1)), raw_block(0x0C02, &vec![0u8; blen]), net(vec![])].concat()));
         }
         variants.push(("no block at all".into(), vec![]));
         variants.push(("SC_CORE only".into(), core(0x00080004, Some(1), Some(1))));
@@ -236,8 +251,8 @@ impl C05 {
             }
             "structured" => {
                 let sv = structured();
-                let (_, d) = sv[(i / 2) as usize].clone();
-                (b.into(), (i % 2) as usize, vec![d], None)
+                let (_, d) = sv[(i / 3) as usize].clone();
+                (b.into(), (i % 3) as usize, vec![d], None)
             }
             "direct" => {
                 let st = self.strs("direct");
@@ -287,7 +302,7 @@ impl Prop for C05 {
             ("inner", self.inner_msgs.len() as u64 * self.strs("inner").count()),
             ("frame", self.inner_msgs.len() as u64 * self.strs("frame").count()),
             ("direct", DIRECT.len() as u64 * self.strs("direct").count()),
-            ("structured", structured().len() as u64 * 2),
+            ("structured", structured().len() as u64 * 3),
         ];
         if tier == Tier::Thorough {
             let n = self.conn_space[0].reduced_count();
@@ -304,7 +319,7 @@ impl Prop for C05 {
         json!({"idx": idx, "block": b, "config": cfg, "deviations": devs, "direct_input_hex": direct.map(|d| vref::bytes::hex(&d))})
     }
     fn rule(&self) -> String {
-        "cases = an honest setup conversation with <=1 deviation (<=2 in thorough). [cc] x224::Client::connect for offered masks {3,1}: the connection confirm with every byte offset x value set (12 boundary values + honest+-1 in quick, all 256 in thorough), every offset as 16/32-bit field in both byte orders x boundary set, every truncation, extensions {+1,+2,+1500}; [conn] the same over connect-response, attach-confirm, both join-confirms and the licence PDU for two server configurations, executed through the real mcs::Client::connect + sec::connect; [inner] each message's payload replaced by every byte string of length <=2 and every string of length 3..5 (..6 in thorough) over {00,01,02,03,04,7F,80,FF}; [frame] each whole message replaced by every string of length <=2 (<=3 in thorough) plus the alphabet strings, unframed (the TPKT / fast-path frame reader is the entry); [direct] the same strings fed to gcc::read_conference_create_response, license::client_connect and the per::read_* primitives; [structured] well-formed but unusual messages: the MCS connect response with every result code 0..15 x 4 BER length widths, SC_CORE bodies of 0..100 bytes, SC_NET with 1..8000 channels and inconsistent counts, blocks missing / repeated / unknown / empty, node ids; the X.224 confirm with every negotiation type x result / failure code 0..9, 0xFF, 0x100, 2^32-1 x flags; attach and join confirms with every result code 0..15 and right / wrong echoed ids; licensing error alerts over 12 codes x 5 state transitions x 9 blob lengths with consistent length fields, every licensing message type x body length x security-header flags; a disconnect ultimatum with every reason in place of each later message; each for both offered masks / server configurations; [pairs, thorough] all pairs of {byte:=00, byte:=FF, truncate} over all offsets of all five messages. Non-trivial: the deviation changed bytes the client consumed (the outcome differs from the honest one or the mutated message was reached).".into()
+        "cases = an honest setup conversation with <=1 deviation (<=2 in thorough). [cc] x224::Client::connect for offered masks {3,1} and 0 (no authentication provider): the connection confirm with every byte offset x value set (12 boundary values + honest+-1 in quick, all 256 in thorough), every offset as 16/32-bit field in both byte orders x boundary set, every truncation, extensions {+1,+2,+1500}; [conn] the same over connect-response, attach-confirm, both join-confirms and the licence PDU for two server configurations, executed through the real mcs::Client::connect + sec::connect; [inner] each message's payload replaced by every byte string of length <=2 and every string of length 3..5 (..6 in thorough) over {00,01,02,03,04,7F,80,FF}; [frame] each whole message replaced by every string of length <=2 (<=3 in thorough) plus the alphabet strings, unframed (the TPKT / fast-path frame reader is the entry); [direct] the same strings fed to gcc::read_conference_create_response, license::client_connect and the per::read_* primitives; [structured] well-formed but unusual messages: the MCS connect response with every result code 0..15 x 4 BER length widths, SC_CORE bodies of 0..100 bytes, SC_NET with 1..8000 channels and inconsistent counts, SC_SECURITY with every combination of small / huge serverRandomLen and serverCertLen with and without the bytes, blocks missing / repeated / unknown / empty, node ids; the X.224 confirm with every negotiation type x result / failure code 0..9, 0xFF, 0x100, 2^32-1 x flags; attach and join confirms with every result code 0..15 and right / wrong echoed ids; licensing error alerts over 12 codes x 5 state transitions x 9 blob lengths with consistent length fields, every licensing message type x body length x security-header flags; a disconnect ultimatum with every reason in place of each later message; each for both offered masks / server configurations; [pairs, thorough] all pairs of {byte:=00, byte:=FF, truncate} over all offsets of all five messages. Non-trivial: the deviation changed bytes the client consumed (the outcome differs from the honest one or the mutated message was reached).".into()
     }
     fn assumptions(&self) -> Vec<String> {
         vec![
@@ -346,7 +361,7 @@ impl Prop for C05 {
                 Outcome::pass(format!("cc:{}:{}", dev_class(&devs[0]), r), applied)
             }
             _ => {
-                let c = raw_connect(&ClientCfg::default(), server_cfg(cfg), devs.clone());
+                let c = raw_connect(&ClientCfg::default(), server_cfg(cfg % 2), devs.clone());
                 let applied = c.peer.borrow().srv.dev_applied.iter().filter(|a| **a).count();
                 let res = match &c.error {
                     None => "ok".to_string(),
